@@ -101,7 +101,33 @@ Definition model_shapes : table :=
   ; ("futures::WithDispatch::into_inner", [])
   ; ("futures::WithDispatch::dispatch", [])
   ; ("futures::WithDispatch::dropglue", [SBody])
-  ; ("futures::WithDispatch::clone", [SBody]) ].
+  ; ("futures::WithDispatch::clone", [SBody])
+  (* the way from a handle's Dispatch to its collector: Dispatch::m, and the Box<C> / Arc<C> impls of Collect a collector may
+     sit behind, hand the call with its arguments to the same method of the collector (the model has no wrapper at all) *)
+  ; ("Dispatch::new_span", [SInvoke "Collect::new_span"])
+  ; ("Dispatch::record", [SInvoke "Collect::record"])
+  ; ("Dispatch::record_follows_from", [SInvoke "Collect::record_follows_from"])
+  ; ("Dispatch::enter", [SInvoke "Collect::enter"])
+  ; ("Dispatch::exit", [SInvoke "Collect::exit"])
+  ; ("Dispatch::clone_span", [SInvoke "Collect::clone_span"])
+  ; ("Dispatch::try_close", [SInvoke "Collect::try_close"])
+  ; ("Dispatch::current_span", [SInvoke "Collect::current_span"])
+  ; ("Box<C>::new_span", [SInvoke "Collect::new_span"])
+  ; ("Box<C>::record", [SInvoke "Collect::record"])
+  ; ("Box<C>::record_follows_from", [SInvoke "Collect::record_follows_from"])
+  ; ("Box<C>::enter", [SInvoke "Collect::enter"])
+  ; ("Box<C>::exit", [SInvoke "Collect::exit"])
+  ; ("Box<C>::clone_span", [SInvoke "Collect::clone_span"])
+  ; ("Box<C>::try_close", [SInvoke "Collect::try_close"])
+  ; ("Box<C>::current_span", [SInvoke "Collect::current_span"])
+  ; ("Arc<C>::new_span", [SInvoke "Collect::new_span"])
+  ; ("Arc<C>::record", [SInvoke "Collect::record"])
+  ; ("Arc<C>::record_follows_from", [SInvoke "Collect::record_follows_from"])
+  ; ("Arc<C>::enter", [SInvoke "Collect::enter"])
+  ; ("Arc<C>::exit", [SInvoke "Collect::exit"])
+  ; ("Arc<C>::clone_span", [SInvoke "Collect::clone_span"])
+  ; ("Arc<C>::try_close", [SInvoke "Collect::try_close"])
+  ; ("Arc<C>::current_span", [SInvoke "Collect::current_span"]) ].
 
 (** * Flattening: a method's own-collector calls and foreign code in execution order, RAII drops at the end of scope *)
 Inductive prim :=
@@ -338,10 +364,10 @@ Fixpoint ctor (fuel : nat) (tbl : table) (c : cid) (t : tid) (parg : option sid)
                      let d := c_d st in
                      let i := d_next d in
                      let d1 := emit d (ECall c t (CNew i (c_po st))) in
-                     mkCst (mkDyn (d_vals d1) (d_defaults d1) (i + 1)%N (d_log d1) ((i, c) :: d_made d1) (d_dropped d1) (d_disp d1))
+                     mkCst (mkDyn (d_vals d1) (d_defaults d1) (i + 1)%N (d_log d1) ((i, c) :: d_made d1) (d_dropped d1) (d_disp d1) (d_hid d1) (d_hlog d1))
                            (Some i) (c_po st) (c_res st)
                | SIfCurrent th el =>
-                   match (if (c =? 0)%N then None else hd_error (stack_of (d_log (c_d st)) c t)) with
+                   match (if (c =? 0)%N || per_handle c then None else hd_error (stack_of (d_log (c_d st)) c t)) with
                    | Some i => rec th (mkCst (c_d st) (Some i) (c_po st) (c_res st))
                    | None => rec el st
                    end
@@ -368,6 +394,11 @@ Definition ctor_run (tbl : table) (entry : string) (d : dyn) (n : name) (t : tid
   let st := ctor FUEL tbl (cur_default d t) t parg enabled selfv [SInvoke entry] (mkCst d None ORoot None) in
   match c_res st with Some v => set_val (c_d st) n v | None => c_d st end.
 
+Definition wrappers : list string := ["Dispatch"; "Box<C>"; "Arc<C>"].
+Definition forwarded : list string :=
+  ["new_span"; "record"; "record_follows_from"; "enter"; "exit"; "clone_span"; "try_close"; "current_span"].
+Definition fwd_key (w m : string) : string := (w ++ "::" ++ m)%string.
+Definition fwd_row (m : string) : list sev := [SInvoke ("Collect::" ++ m)%string].
 Definition row_current : string := "Span::current".
 Definition row_or_current : string := "Span::or_current".
 
